@@ -884,6 +884,7 @@ func forwardLocalStores(f *ssa.Function) bool {
 // threadOnly applies jump threading (and the clean-up it needs) to a
 // function that was not otherwise rewritten.
 func threadOnly(f *ssa.Function) {
+	canonCompare(f)
 	did := false
 	for dupResultReturns(f) {
 		did = true
@@ -906,4 +907,40 @@ func threadOnly(f *ssa.Function) {
 			panic("jump threading produced malformed SSA: " + errs[0])
 		}
 	}
+}
+
+// canonCompare writes every comparison that has its constant on the left
+// (`0 == n`, `nil != err`, `0 < x`) with the constant on the right.
+func canonCompare(f *ssa.Function) {
+	changed := false
+	for _, b := range f.Blocks {
+		for _, in := range b.Instrs {
+			bo, ok := in.(*ssa.BinOp)
+			if !ok {
+				continue
+			}
+			if _, lc := bo.X.(*ssa.Const); !lc {
+				continue
+			}
+			if _, rc := bo.Y.(*ssa.Const); rc {
+				continue
+			}
+			switch bo.Op {
+			case token.EQL, token.NEQ:
+			case token.LSS:
+				bo.Op = token.GTR
+			case token.GTR:
+				bo.Op = token.LSS
+			case token.LEQ:
+				bo.Op = token.GEQ
+			case token.GEQ:
+				bo.Op = token.LEQ
+			default:
+				continue
+			}
+			bo.X, bo.Y = bo.Y, bo.X
+			changed = true
+		}
+	}
+	_ = changed
 }
